@@ -24,14 +24,14 @@ def c17(tier):
     else:
         runs.append(H("c17_ser", "dist-asan", 60000, params=dict(special_period=1500), timeout_per_case=0.1, timeout_base=300))
         runs.append(H("c17_ser", "dist", 100000, params=dict(special_period=2500), timeout_per_case=0.1, timeout_base=300))
-        runs.append(net("dist", 1, 300, 4))
-        runs.append(net("dist", 2, 400, 4))
-        runs.append(net("dist", 3, 300, 3))
-        runs.append(net("dist", 4, 300, 3))
-        runs.append(net("dist-asan", 1, 60, 4, maxcount=4000))
-        runs.append(net("dist-asan", 2, 80, 3, maxcount=4000))
-        runs.append(net("dist-asan", 3, 50, 2, maxcount=4000))
-        runs.append(net("dist-asan", 4, 50, 2, maxcount=4000))
+        runs.append(net("dist", 1, 500, 4))
+        runs.append(net("dist", 2, 700, 4))
+        runs.append(net("dist", 3, 500, 3))
+        runs.append(net("dist", 4, 450, 3))
+        runs.append(net("dist-asan", 1, 120, 4, maxcount=4000))
+        runs.append(net("dist-asan", 2, 160, 3, maxcount=4000))
+        runs.append(net("dist-asan", 3, 100, 2, maxcount=4000))
+        runs.append(net("dist-asan", 4, 100, 2, maxcount=4000))
     return runs
 
 
@@ -59,8 +59,8 @@ SPEC = dict(
                "Type combinations that Serialize.h cannot compile (gSerialize of std::deque / std::tuple / std::set / std::map / "
                "InsertBag / top-level CopyableAtomic, std::pair or galois::Pair holding a string or container at top level, "
                "vectors of deque/gdeque/PODResizeableArray) cannot be exercised at run time.",
-    rule="part A: case = one record of 1..6 top-level fields (type combination drawn from 113 registered concrete types in 16 "
-         "families, or a nested-buffer / special-input construction) x one generated value x 17 reads (receive buffer started at "
+    rule="part A: case = one record of 1..6 top-level fields (type combination drawn from 113 registered concrete types in 13 "
+         "type families, or a nested-buffer / concatenation / special-input construction: 21 components) x one generated value x 17 reads (receive buffer started at "
          "byte offsets 0..15 with fresh and re-used targets, plus the direct SerializeBuffer->DeSerializeBuffer hand-over); "
          "non-trivial iff >=1 byte was produced and all 16 payload alignments were read; distinct by (family, type combination, "
          "record size class). part B: case = 1..5 consecutive phases on np hosts, each phase a seed-determined plan (streams per "
